@@ -157,7 +157,7 @@ def run(ctx):
         if r["kind"] == "ok" and not r["bad"] and len(p["pv"]["vs"]) == 2:
             ctx.sample({"text": ir_flat.render_library(p["lib"]), "expected": p["expect"]}, limit=4)
     need = ["level-top", "level-nested", "n1", "n2", "type-Real", "type-Integer", "type-Boolean", "type-String",
-            "der-none", "der-direct", "der-inexpr", "der-ofexpr", "der-nested", "der-initial",
+            "der-none", "der-direct", "der-inexpr", "der-ofexpr", "der-nested", "der-initial", "der-aftersub", "der-initafter",
             "cat-constant", "cat-parameter", "cat-input", "cat-state", "cat-alg", "two-keyword-prefix", "alias-type", "builtin-type"]
     # the combination nested component x input/output keyword x alias type must be present
     if not any(p["pv"]["level"] == "nested" and any(k["alias"] and k["io"] == io for k in p["pv"]["vs"]) for p in progs for io in ("input",)) \
